@@ -67,7 +67,13 @@ for n, (name, pd, ps, want) in enumerate(jobs):
         if m:
             per[m.group(1)] = dict(rc=int(m.group(2)), violation_line=m.group(3).replace(bench, "<bench>"), summary=m.group(4))
     first = [l for l in r.stdout.splitlines() if l.startswith("# property")]
-    ok = all(v["rc"] == want for v in per.values()) and len(per) == len(ps)
+    if kind == "harmless" and want == 1:
+        # a breaking variant in an unreadable spelling: the property named in the directory must alarm; the other
+        # properties anchored in the touched file do not necessarily observe the changed fact
+        named = name.split("_")[0]
+        ok = named in per and per[named]["rc"] == 1
+    else:
+        ok = all(v["rc"] == want for v in per.values()) and len(per) == len(ps)
     results[name] = dict(applies=True, expected_rc=want, checks=per, as_expected=ok, first_report=(first[0][:300] if first else ""))
     print("%-60s %s  %s" % (name, "as expected" if ok else "*** NOT AS EXPECTED ***", " ".join("%s=%d" % (k, v["rc"]) for k, v in per.items())), flush=True)
 
